@@ -49,6 +49,9 @@ META = dict(
                  "of a non-embedded series (network measures only)"],
 )
 
+META["rule"] += (
+    " " + 'Added after the second round of seeded changes: recurrence networks built by threshold / recurrence_rate / local_recurrence_rate in three metrics on coarse (tied) values; visibility graphs natural and horizontal, with the graph REBUILT from the time-reversed series as a realised renumbering (retarded and advanced measures exchange).')
+
 HIST = ("distribution", "cdf", "histogram", "entropy")
 # nsi_degree_histogram & co. bin float values: when all nodes have the same
 # n.s.i. degree, rounding decides the bin (frequency histograms are outside
